@@ -169,36 +169,35 @@ Definition empty_state (env : list (bytes * bytes)) (work : bytes) (t : tree) : 
      s_stopped := false; s_failed := false; s_fs := t; s_files := []; s_updates := [];
      s_probes := []; s_racy := false; s_unmodelled := false |}.
 
-(* file names of the archive are expanded while envMap is still empty *)
-Fixpoint unpack (unique : bool) (fs : list (bytes * bytes)) (st : state) : option state :=
+(* file names of the archive are expanded while envMap is still empty.  The result is the
+   state reached and whether every entry could be written. *)
+Fixpoint unpack (unique : bool) (fs : list (bytes * bytes)) (st : state) : state * bool :=
   match fs with
-  | [] => Some st
+  | [] => (st, true)
   | (name, data) :: r =>
       let p := mkabs st (expand [] name) in
-      match mkdir_all (s_fs st) (dir p) 511 with
-      | None => None
+      let st0 := set_files st (assoc_set (s_files st) p name) in
+      match mkdir_all (s_fs st0) (dir p) 511 with
+      | None => (st0, false)
       | Some t1 =>
           match (if unique then write_file_excl t1 p data 438 else write_file t1 p data 438) with
-          | None => None
-          | Some t2 => unpack unique r (set_files (set_fs st t2) (assoc_set (s_files st) p name))
+          | None => (set_fs st0 t1, false)
+          | Some t2 => unpack unique r (set_fs st0 t2)
           end
       end
   end.
 
-Definition setup (cfg : config) (work : bytes) (env : list (bytes * bytes)) (a : archive) : option state :=
+Definition setup (cfg : config) (work : bytes) (env : list (bytes * bytes)) (a : archive) : state * bool :=
   match mkdir_all [] (work ++ (* "/.tmp" *) [x2f; x2e; x74; x6d; x70]) 511 with
-  | None => None
+  | None => (empty_state env work [], false)
   | Some t => unpack (c_unique cfg) (files a) (empty_state env work t)
   end.
 
-(* the state reported when setup itself fails (FAIL: file:0) *)
-Definition setup_failed_state (work : bytes) (env : list (bytes * bytes)) : state :=
-  set_failed (empty_state env work []) true.
-
+(* a failure of setup is reported as FAIL: file:0 whatever ContinueOnError says *)
 Definition run_archive (cfg : config) (work : bytes) (env : list (bytes * bytes)) (a : archive) : run_result :=
   match setup cfg work env a with
-  | None => {| r_verdict := Fail 0; r_final := setup_failed_state work env; r_fail_lines := [0] |}
-  | Some st0 => run_script cfg (comment a) st0
+  | (st, false) => {| r_verdict := Fail 0; r_final := set_failed st true; r_fail_lines := [0] |}
+  | (st0, true) => run_script cfg (comment a) st0
   end.
 
 Definition run_file (cfg : config) (work : bytes) (env : list (bytes * bytes)) (file : bytes) : run_result :=
